@@ -11,6 +11,7 @@ CHECKS = {
  "C05": ("proof", "branch records produced by the real analyze() vs the PC reached by the real IL evaluation, at a symbolic 20-bit address, all operands/flags/stack symbolic; CALL/RET, CALLF/RETF, IR/RETI inverse laws as z3 lemmas over the instruction contracts", "near CALL/RET law needs caller and RET on the same 64 KiB page (stated and shown necessary); " + TB, "5 C05"),
  "C07": ("proof", "2-safety contract on Emulator.execute_instruction per opcode: fresh emulator vs emulator with an execution history, TEMP0-13 arbitrary and different, same architectural inputs => same outputs; module globals unchanged. Python half only", "hidden state other than TEMPs is covered through three concrete history instructions; Rust statics/thread-locals not decided; " + TB, "5 C07"),
  "C08": ("proof", "contracts on Registers.get/set (+by-name, flag API) for every register name, arbitrary prior file and arbitrary 64-bit written value, the algebraic law as a lemma over the contract, snapshot round trip and register blob layout; Python half only", "Rust LlamaState/snapshot.rs not decided (constants compared under C17); " + TB, "5 C08"),
+ "C10": ("exploration", "bounded contract check of Assembler.assemble on generated programs against an independent layout calculator (bytes at addresses, symbol table, determinism, statelessness); the two lemmas O-size (pass-one size == pass-two bytes for every symbol value) and O-near (page rule) are proved by SYMX and reported under proved_lemmas", "strings and the lark parser cannot be carried symbolically: the contract on assemble() is bounded (generated programs, seeded); " + TB, "5 C10"),
  "C11": ("proof", "memory laws (read-back, read-only windows, frame/no-alias, alias agreement, little-endian composition) on the real PCE500Memory/MemoryBus for symbolic 32-bit addresses under 12 configurations incl. overlays at symbolic addresses; Python half only", "Rust MemoryImage/RuntimeBus not decided; device windows excluded; " + TB, "5 C11"),
  "C13": ("proof", "contract of TimerScheduler.advance discharged with the loop rule over unbounded integers, cadence lemma over the contract, reset/setters, ISR mapping of _tick_timers; WAIT loop bounded; Python half only", "Rust TimerContext not decided; _simulate_wait bounded (n <= 4/6 cycles); snapshot restore of timers not under contract; " + TB, "5 C13"),
  "C14": ("proof", "per-key debounce/repeat automaton contract for all states/thresholds, key operations establish the invariant, FIFO against its sequence view for all head/tail pairs, scan_tick, KEYI gating; row computation bounded in the number of non-idle keys; Python half only", "Rust keyboard.rs not decided; " + TB, "5 C14"),
@@ -24,7 +25,7 @@ NA = {
 }
 PENDING = {
  "C09": "text->bytes goes through a lark parser and string-valued operands; check not built yet",
- "C10": "check not built yet",
+
  "C12": "check not built yet",
 }
 built = [p for p in CHECKS if os.path.exists(os.path.join(HERE, "props", {"C03": "cpu_props", "C04": "cpu_props", "C07": "cpu_props"}.get(p, p.lower()) + ".py"))]
